@@ -31,6 +31,7 @@ def run_c12(pid, tier):
     mc = run_tlc('MCIndexKernel', 'SPECIFICATION Spec\nCONSTANTS MaxRound = %d MaxReps = %d\nINVARIANT Inv\n' % (mr + 1 if tier == 'quick' else mr, reps), workers=8, timeout=1500)
     tin = os.path.join(scratch(), 'kernel_in.json')
     run_impl('drv_kernel.py', [mr, ml, reps, tin, common.seed()])
+    common.split_error_rows(v, 'C12', tin)
     rows = json.load(open(tin))
     tr, res = table_check(v, 'IndexKernelTrace', 'CONSTANTS MaxRound = %d MaxLen = %d MaxReps = %d\n' % (mr, ml, reps), tin, rows, 'C12')
     v.coverage.update({
@@ -76,6 +77,7 @@ def run_c13(pid, tier):
     mc = run_tlc('MCIndexKernel', 'SPECIFICATION Spec\nCONSTANTS MaxRound = %d MaxReps = 1\nINVARIANT Inv\n' % (mr + 1), workers=8, timeout=1500)
     tin = os.path.join(scratch(), 'kc_in.json')
     run_impl('drv_kernel_circuit.py', [mr, ml, dmax, tin, common.seed(), nrand], timeout=6000)
+    common.split_error_rows(v, 'C13', tin)
     rows = json.load(open(tin))
     tr, res = table_check(v, 'KernelCircuitTrace', '', tin, rows, 'C13')
     v.coverage.update({
